@@ -12,9 +12,12 @@
     scope node <path> <tree>         ok name=<n|-> ref=<-|n:p|!<ns string>>
     scope writable <path> <tree>     ok <t|f>               to_string(node) does not fail with MissingPrefix
     scope dedup <path> <tree>        ok <tree>
+    scope xmlname <path> <tree>      ok <id>=<item>,… for every name id: the name types of xmlname/*.rs on the
+                                       result of name_ref (format: harness scope_names.rs, `xmlname_wire`)
   The vocabulary (`vocab …` line) supplies the id ranges and the strings.
 -/
 import XotModel.Model.Scope
+import XotModel.Model.XmlName
 import XotModel.Driver.Tree
 
 namespace XotModel.Driver
@@ -30,6 +33,37 @@ def showOptNat : Option Nat → String
 def showMissing (env : Env) : XotError → String
   | .missingPrefix ns => "!" ++ encStr (env.namespaceStr ns)
   | _ => "!?"
+
+def showOwned (o : OwnedName) : String :=
+  s!"{encStr o.localName}|{encStr o.namespaceStr}|{encStr o.prefixStr}"
+
+def showRefOpt : Option RefName → String
+  | some r => s!"{r.nameId}:{r.prefixId}"
+  | none => "-"
+
+/-- One item of `scope xmlname`: the calls of harness `xmlname_obs`, in its order, on the scratch tables. -/
+def xmlnameItem (env : Env) (chain : List Tree) (n : Nat) : String :=
+  match nameRefChain env chain n with
+  | .error e => s!"{n}={showMissing env e}"
+  | .ok p =>
+    let tf (b : Bool) : String := if b then "t" else "f"
+    let r : RefName := ⟨n, p⟩
+    let o := r.toOwned env
+    let full := o.fullName
+    let parsed := match OwnedName.parseFullName full (elementLookupStr env chain) with
+      | .ok o2 => if o2 == o then "=" else showOwned o2
+      | .error s => "!U" ++ encStr s
+    let sfx := o.withSuffix
+    let before := sfx.maybeToRef env
+    let (e1, rr) := o.toRef env
+    let (e2, created) := sfx.toCreate e1
+    let after := sfx.maybeToRef e2
+    let cp := match createParseFullName e2 full (elementLookup env chain) with
+      | .ok (_, id) => toString id
+      | .error s => "!U" ++ encStr s
+    let wd := o.withDefaultNamespace ['u','r','n',':','b']
+    s!"{n}={tf (r.hasUnprefixedNamespace env)}{tf o.inDefaultNamespace}/{showOwned o}/{parsed}/{rr.nameId}:{rr.prefixId}/" ++
+    s!"{showRefOpt before}>{created}>{showRefOpt after}/{cp}/{encStr wd.namespaceStr}~{tf wd.inDefaultNamespace}"
 
 def scopeQuery (env : Env) (op : String) (t : Tree) (path : Path) : Option String := do
   let chain ← t.ancestorsOrSelf path
@@ -66,6 +100,7 @@ def scopeQuery (env : Env) (op : String) (t : Tree) (path : Path) : Option Strin
       | .ok (some (n, p)) => s!"{n}:{p}"
       | .error e => showMissing env e
     some s!"ok name={nm} ref={r}"
+  | "xmlname" => some ("ok " ++ joinOrDash ((List.range env.names.length).map (xmlnameItem env chain)))
   | "writable" => some ("ok " ++ (if namesWritableChain env chain sub then "t" else "f"))
   | "dedup" => do
     let t' ← deduplicateNamespaces env t path
